@@ -25,6 +25,7 @@ Definition rand_soft_spec (l : list Z) : list Z :=
 
 (** hard decision of a soft bit: positive means 1 (the convention of the Viterbi decoder's input) *)
 Definition hard (s : Z) : bool := (0 <? s)%Z.
+Definition hardN (s : Z) : N := b2n (hard s).   (* the same as a 0/1 value of a bit array *)
 
 (** an int8_t value *)
 Definition int8 (z : Z) : Prop := (-128 <= z <= 127)%Z.
